@@ -8,6 +8,7 @@ import (
 
 	"github.com/shutter-network/rolling-shutter/rolling-shutter/medley/verifhook"
 
+	"verif/sim/canon"
 	"verif/sim/simfs"
 	"verif/sim/simkit"
 )
@@ -15,7 +16,7 @@ import (
 func init() {
 	simkit.Register(&simkit.Property{
 		ID: "C09", Level: "exploration", Bubble: false, Run: runC09,
-		Rule: "World A: 2-3 real app.ShutterApp replicas execute the same generated block sequence (votes, check-ins, block-seen, DKG results and messages, replays, outsiders; 3-5 addresses, <=3 candidate configs, thresholds biased small); replica k>0 iterates every map in an order drawn from the tape (overlay rewrites all 28 range-over-map sites), replica 0 in sorted order. Between blocks a replica k>0 is, with probability 8%, stopped and started again from its state file (real PersistToDisk / LoadShutterAppFromFile on the simulated disk). After every ABCI call the proto-marshalled responses and the canonical state dumps must be byte-equal. Non-trivial = a state in which >=2 candidates of one voting hold >= threshold votes; distinct = distinct event-trace hashes among those.",
+		Rule: "World A: 2-3 real app.ShutterApp replicas execute the same generated block sequence (votes, check-ins, block-seen, DKG results and messages, replays, outsiders; 3-5 addresses, <=3 candidate configs, thresholds biased small); replica k>0 iterates every map in an order drawn from the tape (overlay rewrites all 28 range-over-map sites), replica 0 in sorted order. In half of the runs replicas see different mempool traffic (CheckTx on one replica only; the CheckTx scratch state is then excluded from the comparison). Between blocks a replica k>0 is, with probability 8%, stopped and started again from its state file (real PersistToDisk / LoadShutterAppFromFile on the simulated disk). After every ABCI call the proto-marshalled responses and the canonical state dumps must be byte-equal. Non-trivial = a state in which >=2 candidates of one voting hold >= threshold votes; distinct = distinct event-trace hashes among those.",
 		Assumptions: []string{"Tendermint delivers identical blocks to all replicas (consensus is a stub)", "map iteration order is the only in-process nondeterminism besides time; the app reads the clock only in Commit/persist (excluded fields LastSaved, Gobpath)"},
 		Real:        []string{"app.ShutterApp (InitChain, CheckTx, BeginBlock, DeliverTx, EndBlock, Commit)", "shmsg signing/decoding", "shutterevents encoding"},
 		Stub:        []string{"Tendermint consensus, mempool, block store (simtm)"},
@@ -34,7 +35,17 @@ func runC09(r *simkit.Run) {
 		}
 	}
 	// (gob turns empty maps into nil maps; a restarted replica is compared modulo that)
-	w.chain.CompareState = func(a *app.ShutterApp) string { return strings.ReplaceAll(fullState(a), "map(nil)", "map[]") }
+	// in half of the runs the replicas see different mempool traffic (CheckTx on one replica
+	// only); the per-block CheckTx scratch state is then node-local and excluded, everything
+	// else - the nonce tracker included - must still be identical
+	localMempools := c.Bool("replica-local-mempool-traffic")
+	w.chain.CompareState = func(a *app.ShutterApp) string {
+		st := fullState(a)
+		if localMempools {
+			st = canon.Dump(a, "LastSaved", "Gobpath", "CheckTxState")
+		}
+		return strings.ReplaceAll(st, "map(nil)", "map[]")
+	}
 	// "does not depend on the process": between blocks a replica other than replica 0 may be
 	// stopped and started again from its saved state file (real PersistToDisk /
 	// LoadShutterAppFromFile on the simulated disk)
@@ -71,6 +82,14 @@ func runC09(r *simkit.Run) {
 	weights := []int{5, 2, 3, 6, 2, 1}
 	var pending []*txInfo
 	for s := 0; s < steps; s++ {
+		if localMempools && c.Chance(350, "local-checktx") {
+			// some transaction reaches one node's mempool only (and never a block)
+			lt := w.txOrdinary(weights)
+			k := c.Intn(nrep, "local-checktx-replica")
+			resp := w.chain.CheckTxOn(k, lt.Bytes)
+			r.Eventf("checktx on replica %d only: tx#%d %s -> %d", k, lt.ID, lt.Desc, resp.Code)
+			r.Probe("replica-local-checktx")
+		}
 		ti := w.txOrdinary(weights)
 		if c.Chance(700, "via-mempool") {
 			resp := w.chain.CheckTx(ti.Bytes)
